@@ -35,7 +35,19 @@ fn params() -> ConsensusParameters {
     })
 }
 
+fn contract_id_of(code: &[u8]) -> ContractId {
+    let contract = tx::Contract::from(code.to_vec());
+    let root = contract.root();
+    let slots: Vec<tx::StorageSlot> = vec![];
+    let state_root = tx::Contract::initial_state_root(slots.iter());
+    tx::Contract::id(&tx::Salt::zeroed(), &root, &state_root)
+}
+
 fn build(bytecode: Vec<u8>, data: Vec<u8>) -> Result<(Interp, fuel_vm::checked_transaction::Ready<tx::Script>), String> {
+    build_with_contract(bytecode, data, None)
+}
+
+fn build_with_contract(bytecode: Vec<u8>, data: Vec<u8>, contract: Option<Vec<u8>>) -> Result<(Interp, fuel_vm::checked_transaction::Ready<tx::Script>), String> {
     let rng = &mut rand::rngs::StdRng::seed_from_u64(1);
     let secret_key = SecretKey::random(rng);
     let utxo_id = rng.gen();
@@ -45,6 +57,27 @@ fn build(bytecode: Vec<u8>, data: Vec<u8>) -> Result<(Interp, fuel_vm::checked_t
     b.with_params(params.clone())
         .add_unsigned_coin_input(secret_key, utxo_id, 1, tx::AssetId::BASE, tx_pointer)
         .maturity(1.into());
+    let mut storage = MemoryStorage::default();
+    if let Some(code) = &contract {
+        use fuel_vm::fuel_storage::StorageAsMut;
+        let id = contract_id_of(code);
+        storage
+            .storage_as_mut::<fuel_vm::storage::ContractsRawCode>()
+            .insert(&id, code.as_slice())
+            .map_err(|e| format!("{e:?}"))?;
+        b.add_input(tx::Input::contract(
+            tx::UtxoId::new(tx::Bytes32::zeroed(), 0),
+            tx::Bytes32::zeroed(),
+            tx::Bytes32::zeroed(),
+            tx::TxPointer::new(0u32.into(), 0),
+            id,
+        ))
+        .add_output(tx::Output::Contract(tx::output::contract::Contract {
+            input_index: 1,
+            balance_root: tx::Bytes32::zeroed(),
+            state_root: tx::Bytes32::zeroed(),
+        }));
+    }
     let tmp = b.clone().finalize();
     use fuel_tx::Chargeable;
     let max_gas = tmp.max_gas(params.gas_costs(), params.fee_params()) + 1;
@@ -55,20 +88,21 @@ fn build(bytecode: Vec<u8>, data: Vec<u8>) -> Result<(Interp, fuel_vm::checked_t
         .into_ready(0, params.gas_costs(), params.fee_params(), None)
         .map_err(|e| format!("{e:?}"))?;
     let ip = InterpreterParams::new(0, &params);
-    let interp: Interp = Interpreter::with_storage(MemoryInstance::new(), MemoryStorage::default(), ip);
+    let interp: Interp = Interpreter::with_storage(MemoryInstance::new(), storage, ip);
     Ok((interp, txr))
 }
 
 fn receipt_json(r: &Receipt) -> Value {
     match r {
-        Receipt::Return { val, .. } => json!({"kind":"return","val":val}),
-        Receipt::ReturnData { data, .. } => {
-            json!({"kind":"return_data","data":hex::encode(data.as_ref().map(|d| d.to_vec()).unwrap_or_default())})
+        Receipt::Return { val, id, .. } => json!({"kind":"return","val":val,"id":hex::encode(id.as_ref())}),
+        Receipt::ReturnData { data, id, .. } => {
+            json!({"kind":"return_data","id":hex::encode(id.as_ref()),"data":hex::encode(data.as_ref().map(|d| d.to_vec()).unwrap_or_default())})
         }
-        Receipt::Revert { ra, .. } => json!({"kind":"revert","val":ra}),
-        Receipt::Panic { reason, .. } => {
-            json!({"kind":"panic","reason":format!("{:?}", reason.reason())})
+        Receipt::Revert { ra, id, .. } => json!({"kind":"revert","val":ra,"id":hex::encode(id.as_ref())}),
+        Receipt::Panic { reason, id, .. } => {
+            json!({"kind":"panic","id":hex::encode(id.as_ref()),"reason":format!("{:?}", reason.reason())})
         }
+        Receipt::Call { to, param1, param2, .. } => json!({"kind":"call","to":hex::encode(to.as_ref()),"param1":param1,"param2":param2}),
         Receipt::Log { ra, rb, rc, rd, .. } => json!({"kind":"log","ra":ra,"rb":rb,"rc":rc,"rd":rd}),
         Receipt::LogData { ra, rb, data, .. } => {
             json!({"kind":"log_data","ra":ra,"rb":rb,"data":hex::encode(data.as_ref().map(|d| d.to_vec()).unwrap_or_default())})
@@ -82,7 +116,14 @@ fn handle(req: &Value) -> Result<Value, String> {
     let op = req["op"].as_str().ok_or("missing op")?;
     let bytecode = hex::decode(req["bytecode"].as_str().ok_or("missing bytecode")?).map_err(|e| e.to_string())?;
     let data = hex::decode(req["data"].as_str().unwrap_or("")).map_err(|e| e.to_string())?;
-    let (mut interp, txr) = build(bytecode, data)?;
+    if op == "contract_id" {
+        return Ok(json!({"id": hex::encode(contract_id_of(&bytecode).as_ref())}));
+    }
+    let contract = match req["contract"].as_str() {
+        Some(c) => Some(hex::decode(c).map_err(|e| e.to_string())?),
+        None => None,
+    };
+    let (mut interp, txr) = build_with_contract(bytecode, data, contract)?;
     match op {
         "init" => {
             interp.set_single_stepping(true);
